@@ -1,6 +1,7 @@
 package main
 
 import (
+	"bytes"
 	"context"
 	"encoding/binary"
 	"fmt"
@@ -15,6 +16,10 @@ import (
 	"example.com/scion-time/core/client"
 	"example.com/scion-time/core/timebase"
 	"example.com/scion-time/net/ntp"
+	"example.com/scion-time/net/nts"
+	"example.com/scion-time/net/ntske"
+
+	"github.com/miscreant/miscreant.go"
 
 	"verifharness/lib"
 )
@@ -146,6 +151,9 @@ type dgram struct {
 	pathOK  bool
 	tsOpt   int64 // SCION: receive time supplied in an E2E timestamp option (0: none)
 	tsUse   bool  // ... and it lies inside the exchange, so the client is expected to use it
+	// NTS verdicts for b, computed by the harness with the real libraries, independently of the
+	// client: nts.DecodePacket ok / unique id equals the request's / AEAD opens under the S2C key
+	ntsDec, ntsUID, ntsOpen bool
 }
 
 type peer struct {
@@ -156,6 +164,7 @@ type peer struct {
 	lastTx  int64
 	hasLast bool
 	theta   map[ntp.Time64]int64 // receive stamp of a genuine reply -> offset it was stamped with
+	store   map[ntp.Time64]int64 // receive stamp -> transmit stamp of every exchange served (the server's timestamp store)
 }
 
 var (
@@ -166,7 +175,7 @@ var (
 
 func setup(c *lib.Ctx) {
 	timebase.RegisterClock(clk)
-	p := &peer{theta: map[ntp.Time64]int64{}}
+	p := &peer{theta: map[ntp.Time64]int64{}, store: map[ntp.Time64]int64{}}
 	for i, a := range []string{"127.0.0.1:0", "127.0.0.1:0", "127.0.0.2:0"} {
 		pc, err := net.ListenUDP("udp4", net.UDPAddrFromAddrPort(netip.MustParseAddrPort(a)))
 		if err != nil {
@@ -203,6 +212,7 @@ type reqInfo struct {
 	org, rx, tx   ntp.Time64
 	R             int64 // peer's reading at receipt (client clock = same clock)
 	interleavedRq bool  // rx field non-zero
+	uid           []byte // NTS unique identifier of the request (nil: none)
 }
 
 func parseReq(b []byte) (ri reqInfo) {
@@ -214,6 +224,15 @@ func parseReq(b []byte) (ri reqInfo) {
 	ri.lvm = b[0]
 	ri.org, ri.rx, ri.tx = be64(b[24:]), be64(b[32:]), be64(b[40:])
 	ri.interleavedRq = ri.rx != ntp.Time64{}
+	if len(b) > 48 {
+		var pkt nts.Packet
+		func() {
+			defer func() { recover() }()
+			if nts.DecodePacket(&pkt, b) == nil {
+				ri.uid = pkt.UniqueID.ID
+			}
+		}()
+	}
 	return
 }
 
@@ -229,10 +248,10 @@ func (p *peer) reply(ri reqInfo, theta int64, S int64, wantIL bool) (b []byte, i
 	put64(b[16:], enc64(ri.R+theta-1000000))
 	rx := enc64(ri.R + theta)
 	put64(b[32:], rx)
-	if wantIL && ri.interleavedRq && p.hasLast && ri.org == p.lastRx {
+	if tx, ok := p.store[ri.org]; ok && wantIL && ri.interleavedRq && ri.rx != ri.tx {
 		il = true
 		put64(b[24:], ri.rx)
-		put64(b[40:], enc64(p.lastTx))
+		put64(b[40:], enc64(tx))
 	} else {
 		put64(b[24:], ri.tx)
 		put64(b[40:], enc64(S+theta))
@@ -247,6 +266,7 @@ func (p *peer) remember(ri reqInfo, theta, S int64) {
 	p.lastTx = S + theta
 	p.hasLast = true
 	p.theta[p.lastRx] = theta
+	p.store[p.lastRx] = p.lastTx
 }
 
 // ---------------------------------------------------------------- one live IP exchange
@@ -257,6 +277,8 @@ type exchCfg struct {
 	filter   bool
 	setPrev  *client.VerifC03Prev
 	setNow   func(prev client.VerifC03Prev) []time.Time // scripted clock readings (optional)
+	nts      bool // client with NTS enabled (key exchange data preloaded through the ntske hook)
+	spao     bool // SCION: Auth.Enabled with a DRKey fetcher that has no daemon (no key becomes available)
 }
 
 // script decides, after seeing the request, which datagrams go back in which order.
@@ -329,7 +351,7 @@ func errKind(err error) string {
 
 // liveClient abstracts the two transports for one scripted exchange.
 type liveClient interface {
-	configure(il bool, f *recFilter)
+	configure(cfg exchCfg, f *recFilter)
 	getPrev() client.VerifC03Prev
 	setPrev(client.VerifC03Prev)
 	measure(ctx context.Context) (time.Time, time.Duration, error)
@@ -339,8 +361,12 @@ type liveClient interface {
 
 type ipLive struct{ c *client.IPClient }
 
-func (l ipLive) configure(il bool, f *recFilter) {
-	l.c.InterleavedMode = il
+func (l ipLive) configure(cfg exchCfg, f *recFilter) {
+	l.c.InterleavedMode = cfg.il
+	l.c.Auth.Enabled = cfg.nts
+	if cfg.nts {
+		l.c.Auth.NTSKEFetcher.VerifC11SetData(ntsData())
+	}
 	l.c.Filter = nil
 	if f != nil {
 		l.c.Filter = f
@@ -354,6 +380,48 @@ func (l ipLive) measure(ctx context.Context) (time.Time, time.Duration, error) {
 	return client.VerifC03MeasureIP(ctx, l.c, la, ra)
 }
 func (l ipLive) parse(b []byte) reqInfo { return parseReq(b) }
+
+// NTS key exchange data preloaded into the client's fetcher (no key exchange takes place).
+var (
+	ntsC2S = []byte("c2s-key-c2s-key-c2s-key-c2s-key!")
+	ntsS2C = []byte("s2c-key-s2c-key-s2c-key-s2c-key!")
+)
+
+func ntsData() ntske.Data {
+	d := ntske.Data{C2sKey: ntsC2S, S2cKey: ntsS2C, Server: "127.0.0.1", Port: thePeer.addr.Port()}
+	for i := 0; i < 8; i++ {
+		ck := make([]byte, 100)
+		for k := range ck {
+			ck[k] = byte(i*31 + k)
+		}
+		d.Cookie = append(d.Cookie, ck)
+	}
+	return d
+}
+
+// ntsVerdicts computes the three oracle inputs of the model for payload b with the real
+// libraries (decoder of net/nts, miscreant AEAD), not through the client.
+func ntsVerdicts(b []byte, reqUID []byte) (dec, uid, open bool) {
+	if len(b) < 48 {
+		return
+	}
+	var pkt nts.Packet
+	func() {
+		defer func() { recover() }()
+		dec = nts.DecodePacket(&pkt, b) == nil
+	}()
+	if !dec {
+		return
+	}
+	uid = bytes.Equal(pkt.UniqueID.ID, reqUID)
+	aead, err := miscreant.NewAEAD("AES-CMAC-SIV", ntsS2C, 16)
+	if err != nil || len(pkt.Auth.Nonce) != aead.NonceSize() || pkt.Auth.VerifC10Pos() > len(b) {
+		return
+	}
+	_, err = aead.Open(nil, pkt.Auth.Nonce, pkt.Auth.CipherText, b[:pkt.Auth.VerifC10Pos()])
+	open = err == nil
+	return
+}
 func (l ipLive) transport() (string, string) {
 	return "ip", fmt.Sprintf("server=%d", thePeer.srcNum(srcServer))
 }
@@ -367,9 +435,9 @@ func exchange(c *lib.Ctx, lc liveClient, cfg exchCfg, sc script) (res exchResult
 	res.tr, res.hdr = lc.transport()
 	if cfg.filter {
 		res.filter = &recFilter{value: 424242}
-		lc.configure(cfg.il, res.filter)
+		lc.configure(cfg, res.filter)
 	} else {
-		lc.configure(cfg.il, nil)
+		lc.configure(cfg, nil)
 	}
 	if cfg.setPrev != nil {
 		lc.setPrev(*cfg.setPrev)
@@ -466,9 +534,10 @@ func prevStr(p client.VerifC03Prev, reference string) string {
 
 // evIP renders the datagram facts for the model: d:<src>:<len>:<lvm>:<stratum>:<org>:<rx>:<tx>:<cRx>:<before>
 // or f:<before> (MSG_TRUNC: longer than the client's 48-byte buffer), then e:0 (deadline) if set.
-func evIP(p *peer, sent []dgram, cRx int64, deadlineSet bool) string {
+func evIP(p *peer, sent []dgram, cRx int64, deadlineSet bool, bufCap int) string {
 	var ev []string
 	for _, d := range sent {
+		v := fmt.Sprintf(":%s:%s:%s", lib.Bool(d.ntsDec), lib.Bool(d.ntsUID), lib.Bool(d.ntsOpen))
 		if d.wire != nil {
 			var lvm, st uint8
 			var org, rx, tx ntp.Time64
@@ -476,10 +545,10 @@ func evIP(p *peer, sent []dgram, cRx int64, deadlineSet bool) string {
 				lvm, st = d.b[0], d.b[1]
 				org, rx, tx = be64(d.b[24:]), be64(d.b[32:]), be64(d.b[40:])
 			}
-			ev = append(ev, fmt.Sprintf("s:%s:%d:%d:%d:%s:%s:%s:%d:1", d.facts, len(d.b), lvm, st, f64(org), f64(rx), f64(tx), cRx))
+			ev = append(ev, fmt.Sprintf("s:%s:%d:%d:%d:%s:%s:%s:%d:1", d.facts, len(d.b), lvm, st, f64(org), f64(rx), f64(tx), cRx)+v)
 			continue
 		}
-		if len(d.b) > 48 {
+		if len(d.b) > bufCap {
 			ev = append(ev, "f:1")
 			continue
 		}
@@ -489,7 +558,7 @@ func evIP(p *peer, sent []dgram, cRx int64, deadlineSet bool) string {
 			lvm, st = d.b[0], d.b[1]
 			org, rx, tx = be64(d.b[24:]), be64(d.b[32:]), be64(d.b[40:])
 		}
-		ev = append(ev, fmt.Sprintf("d:%d:%d:%d:%d:%s:%s:%s:%d:1", p.srcNum(d.src), len(d.b), lvm, st, f64(org), f64(rx), f64(tx), cRx))
+		ev = append(ev, fmt.Sprintf("d:%d:%d:%d:%d:%s:%s:%s:%d:1", p.srcNum(d.src), len(d.b), lvm, st, f64(org), f64(rx), f64(tx), cRx)+v)
 	}
 	if deadlineSet {
 		ev = append(ev, "e:0")
@@ -506,8 +575,17 @@ func goClockOffset(t0, t1, t2, t3 int64) (int64, int64) {
 }
 
 // acceptable: the conditions of property C05 evaluated on the bytes the peer crafted.
-func acceptable(p *peer, d dgram, ri reqInfo, prevSRx ntp.Time64, ref int64) bool {
-	if d.wire == nil && (p.srcNum(d.src) != p.srcNum(srcServer) || len(d.b) != 48) {
+func acceptable(p *peer, d dgram, ri reqInfo, prevSRx ntp.Time64, ref int64, ntsOn bool) bool {
+	if ntsOn && !(d.ntsDec && d.ntsUID && d.ntsOpen) {
+		return false
+	}
+	return acceptableButNTS(p, d, ri, prevSRx, ref, ntsOn)
+}
+
+// acceptableButNTS: every condition of the property except the NTS clause.
+func acceptableButNTS(p *peer, d dgram, ri reqInfo, prevSRx ntp.Time64, ref int64, ntsOn bool) bool {
+	if d.wire == nil && (p.srcNum(d.src) != p.srcNum(srcServer) || len(d.b) < 48 || !ntsOn && len(d.b) != 48 ||
+		len(d.b) > nts.MaxPacketLen) {
 		return false
 	}
 	if d.wire != nil && (!d.pathOK || len(d.b) < 48) {
@@ -559,9 +637,20 @@ func recordIP(c *lib.Ctx, tag string, cfg exchCfg, res exchResult) int {
 		cRx := res.ts.UnixNano()
 		// which datagram? the one whose receive field went into prev (il on) / the filter tuple / the first acceptable
 		for i, d := range res.sent {
-			if acceptable(p, d, res.ri, res.prev0.SRxTime, res.now0) {
+			if acceptable(p, d, res.ri, res.prev0.SRxTime, res.now0, cfg.nts) {
 				idx = i
 				break
+			}
+		}
+		if idx < 0 && cfg.nts {
+			for _, d := range res.sent {
+				if acceptableButNTS(p, d, res.ri, res.prev0.SRxTime, res.now0, true) {
+					c.Fail("C05:nts:offset-from-unauthenticated-datagram",
+						"an NTS-enabled client reported a measurement although no datagram carried the request's unique identifier and verified under the S2C key",
+						[]string{opReq}, map[string]any{"sent": len(res.sent), "offset": int64(res.off),
+							"first": map[string]any{"len": len(d.b), "decode": d.ntsDec, "uid": d.ntsUID, "open": d.ntsOpen}})
+					return -1
+				}
 			}
 		}
 		if idx < 0 {
@@ -573,6 +662,15 @@ func recordIP(c *lib.Ctx, tag string, cfg exchCfg, res exchResult) int {
 		org, rx, tx := be64(d.b[24:]), be64(d.b[32:]), be64(d.b[40:])
 		acceptedIL = res.ri.interleavedRq && org == res.ri.rx
 		if cfg.il {
+			if cfg.nts && res.prev1.SRxTime != rx {
+				for _, o := range res.sent {
+					if len(o.b) >= 48 && be64(o.b[32:]) == res.prev1.SRxTime && !(o.ntsDec && o.ntsUID && o.ntsOpen) {
+						c.Fail("C05:nts:offset-from-unauthenticated-datagram",
+							"an NTS-enabled client took its measurement from a datagram that does not carry the request's unique identifier or does not verify under the S2C key",
+							[]string{opReq}, map[string]any{"len": len(o.b), "decode": o.ntsDec, "uid": o.ntsUID, "open": o.ntsOpen})
+					}
+				}
+			}
 			if res.prev1.SRxTime != rx || res.prev1.Interleaved != acceptedIL {
 				c.Fail("C05:accepted-other-datagram", "prev after the exchange does not stem from the first acceptable datagram",
 					[]string{opReq}, map[string]any{"idx": idx, "prev1": prevStr(res.prev1, reference)})
@@ -690,9 +788,13 @@ func recordIP(c *lib.Ctx, tag string, cfg exchCfg, res exchResult) int {
 	if !accepted {
 		cRxAll = wallNow().UnixNano() // kernel receive times of unaccepted datagrams: some time inside the call
 	}
-	op := fmt.Sprintf("cli.exch tr=%s il=%s dl=%s filt=%s %s ref=same prev=%s now=%d ctx1=%d ev=%s",
-		res.tr, ilS, dlS, filt, res.hdr, prevStr(res.prev0, reference), res.now0, ctx1,
-		evIP(p, res.sent, cRxAll, cfg.deadline != 0))
+	bufCap := 48
+	if cfg.nts {
+		bufCap = nts.MaxPacketLen
+	}
+	op := fmt.Sprintf("cli.exch tr=%s il=%s nts=%s dl=%s filt=%s %s ref=same prev=%s now=%d ctx1=%d ev=%s",
+		res.tr, ilS, lib.Bool(cfg.nts), dlS, filt, res.hdr, prevStr(res.prev0, reference), res.now0, ctx1,
+		evIP(p, res.sent, cRxAll, cfg.deadline != 0, bufCap))
 	var ans string
 	switch {
 	case res.panicked != "":
